@@ -21,26 +21,26 @@ theorem exec_readOnly_clean (c : Conn) (s : Stmt) (hro : s.readOnly = true) (hcl
 
 /-- `Journaler.__init__`: two CREATE TABLE IF NOT EXISTS -/
 theorem open_runSpec (c : Conn) (hcl : c.Clean) (n : Nat) :
-    RunSpec openP c c.committed c.working .none true false n := by
+    RunSpec openP c c.committed c.working .none true n := by
   unfold openP
-  apply runSpec_exec _ _ _ _ _ _ _ _ _ rfl
+  apply runSpec_exec _ _ _ _ _ _ _ _ rfl
   intro m
   obtain ⟨hw1, hc1⟩ := exec_readOnly_clean c .createMsgTable rfl hcl
   have hcl1 : (c.exec .createMsgTable).1.Clean := by simp only [Conn.Clean, hw1, hc1]; exact hcl
-  apply runSpec_exec _ _ _ _ _ _ _ _ _ hc1
+  apply runSpec_exec _ _ _ _ _ _ _ _ hc1
   intro m'
   obtain ⟨hw2, hc2⟩ := exec_readOnly_clean _ .createSessTable rfl hcl1
-  have := runSpec_ret .none .none ((c.exec .createMsgTable).1.exec .createSessTable).1 true false m'
-    (fun _ => rfl) (fun _ => by simp only [Conn.Clean, hw2, hc2]; exact hcl1)
+  have := runSpec_ret .none .none ((c.exec .createMsgTable).1.exec .createSessTable).1 true m'
+    (fun _ => rfl) (by simp only [Conn.Clean, hw2, hc2]; exact hcl1)
   rwa [hw2, hc2, hw1, hc1] at this
 
 theorem sessions_runSpec (c : Conn) (hcl : c.Clean) (n : Nat) :
-    RunSpec sessionsP c c.committed c.working (.dict (sessions c.working)) true false n :=
-  runSpec_select .selectSessions sessionsRes c rfl hcl _ true false (fun _ => ⟨rfl, rfl⟩) n
+    RunSpec sessionsP c c.committed c.working (.dict (sessions c.working)) true n :=
+  runSpec_select .selectSessions sessionsRes c rfl hcl _ true (fun _ => ⟨rfl, rfl⟩) n
 
 theorem recover_runSpec (c : Conn) (hcl : c.Clean) (h : Handle) (dir : Dir) (lo hi : Bound) (n : Nat) :
     RunSpec (recoverP h dir lo hi) c c.committed c.working (recoverMessages c.working h dir lo hi)
-      (fits h.key && fits lo.param && fits hi.param) false n := by
+      (fits h.key && fits lo.param && fits hi.param) n := by
   apply runSpec_select (.selectRange h.key dir lo hi) recoverRes c rfl hcl
   intro hfit
   simp only [Bool.and_eq_true] at hfit
@@ -50,7 +50,7 @@ theorem recover_runSpec (c : Conn) (hcl : c.Clean) (h : Handle) (dir : Dir) (lo 
 
 theorem recoverMsg_runSpec (c : Conn) (hcl : c.Clean) (h : Handle) (dir : Dir) (b : Bound) (n : Nat) :
     RunSpec (recoverMsgP h dir b) c c.committed c.working (recoverMsg c.working h dir b)
-      (fits h.key && fits b.param) false n := by
+      (fits h.key && fits b.param) n := by
   apply runSpec_select (.selectRange h.key dir b b) recoverMsgRes c rfl hcl
   intro hfit
   simp only [Bool.and_eq_true] at hfit
@@ -69,7 +69,7 @@ theorem recoverMsg_runSpec (c : Conn) (hcl : c.Clean) (h : Handle) (dir : Dir) (
 
 theorem getAll_runSpec (c : Conn) (hcl : c.Clean) (keys : Option (List Int)) (dir : Option Dir) (n : Nat) :
     RunSpec (getAllP keys dir) c c.committed c.working (getAllMsgs c.working keys dir)
-      (((normKeys keys).getD []).all fits) false n := by
+      (((normKeys keys).getD []).all fits) n := by
   apply runSpec_select (.selectAll (normKeys keys) dir) getAllRes c rfl hcl
   intro hfit
   constructor
@@ -83,9 +83,9 @@ theorem getAll_runSpec (c : Conn) (hcl : c.Clean) (keys : Option (List Int)) (di
 
 theorem createOrLoad_runSpec (c : Conn) (hcl : c.Clean) (t s : String) (n : Nat) :
     RunSpec (createOrLoadP t s) c c.committed (createOrLoad c.working t s).1 (createOrLoad c.working t s).2
-      true false n := by
+      true n := by
   unfold createOrLoadP
-  apply runSpec_exec _ _ _ _ _ _ _ _ _ rfl
+  apply runSpec_exec _ _ _ _ _ _ _ _ rfl
   intro m
   obtain ⟨hr, hw, hc⟩ := exec_ok c (.insertSession t s) rfl
   have htx := exec_inTx c (.insertSession t s)
@@ -98,7 +98,7 @@ theorem createOrLoad_runSpec (c : Conn) (hcl : c.Clean) (t s : String) (n : Nat)
     simp only [hi] at hr hw ⊢
     rw [hr]
     have := runSpec_commit_ret (.handle ⟨id, t, s, 1, 1⟩) (.handle ⟨id, t, s, 1, 1⟩)
-      (c.exec (.insertSession t s)).1 true false m htx (fun _ => rfl)
+      (c.exec (.insertSession t s)).1 true m htx (fun _ => rfl)
     rwa [hw, hc] at this
   | none =>
     simp only [hi] at hr hw ⊢
@@ -106,7 +106,7 @@ theorem createOrLoad_runSpec (c : Conn) (hcl : c.Clean) (t s : String) (n : Nat)
     have hcl1 : (c.exec (.insertSession t s)).1.Clean := by simp only [Conn.Clean, hw, hc]; exact hcl
     have := runSpec_select (.selectSession t s) loadRes (c.exec (.insertSession t s)).1 rfl hcl1
       (match selSession c.working t s with
-        | r :: _ => (Res.handle (handleOf r)) | [] => .raised .stopIteration) true false
+        | r :: _ => (Res.handle (handleOf r)) | [] => .raised .stopIteration) true
       (fun _ => ⟨rfl, by
         simp only [Stmt.run, hw]
         cases selSession c.working t s <;> rfl⟩) m
